@@ -376,6 +376,12 @@ fn run(ctx: &Ctx, rep: &Report) {
         let mut rng = Rng::for_case(ctx.seed, "C07-levels", i);
         let mut cfg = ladder_cfg(&mut rng, 1, false);
         cfg.compression = Some(levels[i as usize].clone());
+        // every fourth of these also carries a file of one repeated byte: compression ratios of
+        // several thousand to one are legitimate
+        if i % 4 == 0 {
+            let size = [300_000usize, 2_000_000, 1_000_001][(i / 4 % 3) as usize];
+            cfg.files.push(FileCfg { dest: format!("/opt/zeros/run{i}.bin"), content_kind: "zero".into(), size, content_seed: 0, mode: Some(0o100644), source_perm: 0o644, user: None, group: None, flags: vec![], caps: None, symlink: None, mtime: 1_500_000_000, verify: None });
+        }
         let dir = base.join(format!("l{i}"));
         let mut local = BTreeMap::new();
         judge_built(&cfg, &dir, rep, &mut local);
